@@ -38,8 +38,7 @@ theorem findStream_cons (sid : Nat) (a : Stream α) (t : List (Stream α)) :
   unfold findStream
   rw [List.find?_cons]
   by_cases ha : a.id = sid
-  · have hb : (a.id == sid) = true := by simp [ha]
-    simp [hb, ha]
+  · simp [ha]
   · have hb : (a.id == sid) = false := by simp [ha]
     simp [hb, ha]
 
@@ -237,7 +236,7 @@ theorem answerAll_spec (ps : Nat → α) (ctxNew : Bool) : ∀ (rs : List Nat) (
           · exact answerAll_reqStreams_none ps ctxNew q t _ (by simp [writeTo, eraseResp])
           · exact a2 q hq
         · rw [a6]
-          simp [batchOut, s1, hjs, List.append_assoc]
+          simp [batchOut, s1, List.append_assoc]
 
 /-- **C02 (a batch of calls on one POST: every call is answered exactly once and the exchange completes).**  In any
 reachable state with no write between its two sections, take a registered request stream `s` (created by a POST
